@@ -8,6 +8,7 @@ CONSTANTS
   Forms = {"take", "read", "take_next", "read_inst"}
   Kinds = {"V", "D"}
   Retransmit = FALSE
+  NoKey = FALSE
   GenK = 20
 CONSTRAINT Bound
 VIEW View
